@@ -92,7 +92,7 @@ func mkWorld(rng *rand.Rand) *world {
 		w.ipIdx[ip] = i
 	}
 	// ids: one crowded distance class, a medium one, and the far end including the bucket-0 boundary
-	plan := []struct{ ld, n int }{{256, 30}, {255, 8}, {250, 4}, {241, 2}, {240, 2}, {239, 2}, {200, 1}, {17, 1}, {1, 1}}
+	plan := []struct{ ld, n int }{{256, 30}, {255, 8}, {250, 4}, {245, 3}, {241, 2}, {240, 2}, {239, 2}, {200, 1}, {17, 1}, {1, 1}}
 	w.peers = append(w.peers, &peer{0, selfID, 0})
 	w.byID[selfID] = w.peers[0]
 	for _, p := range plan {
@@ -276,6 +276,52 @@ func runSerial(w *tracelog.Writer, seed int64, traces, ops int) error {
 		var stale *portalwire.VerifRevalHandle
 		var staleRec *enode.Node
 		stalePhase := 0 // 1 remove, 2 re-add, 3 deliver
+		// a laid-out prefix in every eighth trace: one public /24 (O) is brought to the table-wide limit of 10 (two nodes in each of
+		// five buckets), an endpoint change of one of them into another crowded /24 is refused by the bucket limit, and an eleventh
+		// node of O is offered to a sixth bucket - the refused change must leave both the bucket's and the table's counts as they
+		// were (sweep mutant G1/65-C07 restored the bucket's only)
+		var script []*enode.Node
+		var scriptInbound []bool
+		if t%8 == 5 && !lanOnly {
+			used := map[int]bool{}
+			pick := func(ld int) *peer {
+				for _, p := range wd.peers[1:] {
+					if p.ld == ld && !used[p.idx] {
+						used[p.idx] = true
+						return p
+					}
+				}
+				return nil
+			}
+			h := 0
+			var first *peer
+			for _, ld := range []int{256, 255, 250, 241, 240} {
+				for k := 0; k < 2; k++ {
+					if p := pick(ld); p != nil {
+						if first == nil {
+							first = p
+						}
+						script = append(script, mkNode(p.id, wd.ips[h%6], 30303+h, 1))
+						scriptInbound = append(scriptInbound, false)
+						h++
+					}
+				}
+			}
+			for k := 0; k < 2; k++ {
+				if p := pick(256); p != nil {
+					script = append(script, mkNode(p.id, wd.ips[6+k], 30303, 1))
+					scriptInbound = append(scriptInbound, false)
+				}
+			}
+			if first != nil {
+				script = append(script, mkNode(first.id, wd.ips[8], 30303, 2)) // the refused endpoint change
+				scriptInbound = append(scriptInbound, true)
+			}
+			if p := pick(245); p != nil { // a sixth bucket, with no node of O yet
+				script = append(script, mkNode(p.id, wd.ips[3], 31000, 1)) // the eleventh of O
+				scriptInbound = append(scriptInbound, false)
+			}
+		}
 		for step := 0; step < ops; step++ {
 			op := map[string]any{"name": "", "id": -1, "inbound": false, "seq": 0, "net": -2, "ip": -1, "port": 0, "alive": false, "credit": 0,
 				"ok": false, "fails": 0, "nb": 0, "found": []int{}, "newrec": false, "isentry": false, "ld": 0}
@@ -315,7 +361,13 @@ func runSerial(w *tracelog.Writer, seed int64, traces, ops int) error {
 					return false
 				}
 				k := rng.Intn(100)
-				if stalePhase == 0 && burstLeft == 0 && aftermath == 0 && rng.Intn(30) == 0 {
+				if step < len(script) {
+					rec = script[step]
+					k = 0
+					if scriptInbound[step] {
+						k = 40
+					}
+				} else if stalePhase == 0 && burstLeft == 0 && aftermath == 0 && rng.Intn(30) == 0 {
 					var ents []portalwire.VerifNode
 					for _, b := range snap {
 						ents = append(ents, b.Entries...)
@@ -346,7 +398,7 @@ func runSerial(w *tracelog.Writer, seed int64, traces, ops int) error {
 					} else {
 						k = 70
 					}
-				} else if rng.Intn(25) == 0 {
+				} else if step >= len(script) && rng.Intn(25) == 0 {
 					var ents []portalwire.VerifNode
 					for _, b := range snap {
 						ents = append(ents, b.Entries...)
